@@ -126,3 +126,10 @@ def threshold(vc):
     vc.check('post/flag-raised-iff-threshold-reached-or-raised-before', flag is True if (was or reached) else flag is False)
     if was:
         vc.check('sticky/never-lowered', flag is True)
+
+
+# "closed once only orphaned streams remain" is decided by comparing in_flight with the number of orphans, so it rests on in_flight counting every live request
+# (INV-ID).  One path that takes and gives back a slot outside borrow/return is the keyspace switch: set_keyspace_async must take its slot even when there is
+# nothing to send, because the pool's callback gives one back.  C12's contract, re-discharged here.
+from contracts import c12_pool_accounting as _C12
+harness('C13', 'keyspace-switch-keeps-the-in-flight-count-exact', functions=['cassandra.connection.Connection.set_keyspace_async'], native='contracts.native.c12:replay')(_C12.ks_accounting)
